@@ -49,7 +49,6 @@ UNIT = dict(
                     live_log(self.request_log@, now.t as nat, self.window_duration.nanos as nat) == live_log(old(self).request_log@, now.t as nat, old(self).window_duration.nanos as nat),
                     self.limit_for_period == old(self).limit_for_period && self.window_duration == old(self).window_duration && self.timeout_duration == old(self).timeout_duration,
                     sorted_upto(self.request_log@, now.t as nat), self.request_log@.len() <= self.limit_for_period, now.t == clk.now@,
-                    forall|i: int| 0 <= i < self.request_log@.len() ==> (#[trigger] self.request_log@[i]).t + self.window_duration.nanos <= u128::MAX,
                     *tr == *old(tr),
                 ensures live_log(self.request_log@, now.t as nat, self.window_duration.nanos as nat) =~= self.request_log@,
                     self.request_log@.len() > 0 ==> !(now.t >= self.request_log@[0].t && now.t - self.request_log@[0].t >= self.window_duration.nanos),
